@@ -5,6 +5,7 @@ Env/Knapsack/Lemmas.lean).  Sections are named after the property they belong to
 import JumanjiModel.Env.Knapsack.Lemmas
 import JumanjiModel.Env.Knapsack.Bounds
 import JumanjiModel.Env.Knapsack.Episode
+import JumanjiModel.Env.Knapsack.Spec
 import JumanjiModel.Prim.FloatLemmas
 open Jm Knapsack
 
@@ -27,6 +28,64 @@ theorem knapsack_step_unit (rnd : Rat → Rat) (dense : Bool) (s : State) (a : I
 
 example : validDraw 2 [1/2, 1/4] [1, 0] := by decide +kernel
 example : UnitItems ⟨[1/2, 1/4], [1, 1], [false, true], 1/2⟩ := by decide +kernel
+
+/-! #### full spec membership (structure, shapes, dtypes, bounds) — Env/Knapsack/Spec.lean
+
+`obsSpec n` / `actionSpec n` are the declared `observation_spec` / `action_spec` of a `num_items = n` environment as values
+of the spec algebra (Spec/Spec.lean); `toNValue o` is the model observation as the four arrays the implementation emits,
+every shape read off the value; `Nested.valid` is the transliteration of `validate`. -/
+
+open Sp PzS in
+/-- the symbolic specs ARE the specs generated from the real spec objects (Gen/Specs.lean) for the catalogue
+configuration `knapsack-8` -/
+theorem knapsack_obsSpec_generated :
+    prefixed "observation_spec." (obsSpec 8) = declared "knapsack-8" "observation_spec." ∧
+    [("action_spec", actionSpec 8)] = declared "knapsack-8" "action_spec" := by
+  refine ⟨by decide, by decide⟩
+
+/-- the `reset` observation — every number of items, every budget, every valid draw — is accepted by
+`observation_spec.validate`: four fields of shape `(n,)`, dtypes float32/float32/bool/bool, all values in [0, 1] -/
+theorem knapsack_reset_obs_valid (n : Nat) (budget : Rat) (w v : List Rat) (h : validDraw n w v) :
+    (obsSpec n).valid (toNValue (reset budget w v).2.obs) = true := Knapsack.reset_obs_valid n budget w v h
+
+/-- the same for the observation of every `step` (any rounding, either reward function, ANY action value, valid or not,
+the terminal step included) from a state satisfying `SpecInv n` … -/
+theorem knapsack_step_obs_valid (n : Nat) (rnd : Rat → Rat) (dense : Bool) (s : State) (a : Int) (h : SpecInv n s) :
+    (obsSpec n).valid (toNValue (step rnd dense s a).2.obs) = true := Knapsack.step_obs_valid n rnd dense s a h
+
+/-- … an invariant `reset` establishes for every valid draw, every step preserves, and which therefore holds in every
+state of every play from `reset` (any action values, stepping on after LAST included) -/
+theorem knapsack_reset_specInv (n : Nat) (budget : Rat) (w v : List Rat) (h : validDraw n w v) :
+    SpecInv n (reset budget w v).1 := Knapsack.reset_specInv n budget w v h
+theorem knapsack_step_specInv (n : Nat) (rnd : Rat → Rat) (dense : Bool) (s : State) (a : Int) (h : SpecInv n s) :
+    SpecInv n (step rnd dense s a).1 := Knapsack.step_specInv n rnd dense s a h
+theorem knapsack_obs_valid_along (n : Nat) (rnd : Rat → Rat) (dense : Bool) (budget : Rat) (w v : List Rat)
+    (h : validDraw n w v) (as : List Int) (a : Int) :
+    (obsSpec n).valid (toNValue
+      (step rnd dense ((Ep.ofStep (step rnd dense) (fun _ => 0)).run (reset budget w v).1 as) a).2.obs) = true :=
+  Knapsack.step_obs_valid n rnd dense _ a
+    (Knapsack.specInv_along n rnd dense _ as (Knapsack.reset_specInv n budget w v h))
+
+/-- what membership means (so the theorems above are not hollow): `validate` accepts an observation ONLY IF all four
+fields have exactly `n` entries and weights and values lie in [0, 1] -/
+theorem knapsack_obs_valid_only (n : Nat) (o : Obs) (h : (obsSpec n).valid (toNValue o) = true) :
+    o.weights.length = n ∧ o.values.length = n ∧ o.packed.length = n ∧ o.mask.length = n ∧
+    (∀ x ∈ o.weights, 0 ≤ x ∧ x ≤ 1) ∧ (∀ x ∈ o.values, 0 ≤ x ∧ x ≤ 1) := Knapsack.obs_valid_only n o h
+
+/-- `action_spec.generate_value()` (= item 0) is a member of `action_spec` (every `n ≥ 1`) and is accepted by `step` in
+every state of the invariant: the answer is a MID or LAST timestep whose observation is a member of `observation_spec`
+(reward and discount: `knapsack_step_reward_discount_in_spec`, Props/C01.lean) -/
+theorem knapsack_step_accepts_generate (n : Nat) (hn : 0 < n) (rnd : Rat → Rat) (dense : Bool) (s : State)
+    (h : SpecInv n s) :
+    (actionSpec n).generate = ⟨[], .int32, [0]⟩ ∧ (actionSpec n).valid (actionSpec n).generate = true ∧
+    (obsSpec n).valid (toNValue (step rnd dense s 0).2.obs) = true ∧
+    ((step rnd dense s 0).2.stepType = .mid ∨ (step rnd dense s 0).2.stepType = .last) :=
+  Knapsack.step_accepts_generate n hn rnd dense s h
+
+example : SpecInv 2 ⟨[1/2, 1/4], [1, 1], [false, true], 1/2⟩ := by decide +kernel
+example : (obsSpec 2).valid (toNValue ⟨[1/2, 1/4], [1, 1], [false, true], [true, false]⟩) = true ∧
+    (obsSpec 2).valid (toNValue ⟨[1/2, 5/4], [1, 1], [false, true], [true, false]⟩) = false ∧
+    (obsSpec 2).valid (toNValue ⟨[1/2, 1/4], [1, 1], [false, true], [true]⟩) = false := by decide +kernel
 end Props.C01
 
 namespace Props.C04
@@ -39,7 +98,20 @@ treated as invalid and every legal action is accepted) -/
 theorem knapsack_step_agrees (s : State) (a : Nat) (hl : s.packed.length = s.weights.length)
     (ha : a < s.weights.length) : isValid s a = true ↔ legal s a := Knapsack.isValid_iff_legal s a hl ha
 
+/-- the same stated about `step` itself (audit: `knapsack_step_agrees` speaks of the auxiliary `isValid` only): on a
+well-shaped state and an in-range action, a legal action is carried out (the successor is the state with exactly that item
+packed, `packL2`), an illegal one changes nothing, ends the episode and pays 0; hence the packed set changes iff the action
+was legal — a masked-in action (`knapsack_mask_iff_legal`) is never treated as invalid and no legal action is refused -/
+theorem knapsack_step_agrees_step (rnd : Rat → Rat) (dense : Bool) (s : State) (a : Nat) (hs : WellShaped s)
+    (ha : a < s.weights.length) :
+    (legal s a → (step rnd dense s a).1 = packL2 rnd s a) ∧
+    (¬ legal s a → (step rnd dense s a).1 = s ∧ (step rnd dense s a).2.stepType = .last ∧
+       (step rnd dense s a).2.reward = [0]) ∧
+    (legal s a ↔ (step rnd dense s a).1.packed ≠ s.packed) := Knapsack.step_agrees_step rnd dense s a hs ha
+
 example : legal ⟨[1/2, 1/4], [1, 1], [false, true], 1/2⟩ 0 := by decide +kernel
+example : ¬ legal ⟨[1/2, 1/4], [1, 1], [false, true], 1/2⟩ 1 ∧ WellShaped ⟨[1/2, 1/4], [1, 1], [false, true], 1/2⟩ := by
+  decide +kernel
 end Props.C04
 
 namespace Props.C05
@@ -237,6 +309,18 @@ namespace Props.C12
 /-- the observation is the documented function of the successor state -/
 theorem knapsack_obs_faithful (rnd : Rat → Rat) (dense : Bool) (s : State) (a : Int) :
     (step rnd dense s a).2.obs = observe (step rnd dense s a).1 := Knapsack.obs_faithful rnd dense s a
+
+/-- … and `observe` (the L1 `_state_to_observation` with its vectorised mask expression) IS the documented observation
+`observeL2` (problem data, packed flags, mask = "which items can be packed" by the rules `legal`): for the observation
+of every `step` (any action value, terminal step included) from a state with one flag per item … -/
+theorem knapsack_obs_documented (rnd : Rat → Rat) (dense : Bool) (s : State) (a : Int)
+    (hl : s.packed.length = s.weights.length) :
+    (step rnd dense s a).2.obs = observeL2 (step rnd dense s a).1 := Knapsack.step_obs_documented rnd dense s a hl
+
+/-- … and for the observation of `reset` (any budget, any sampled weights and values), which is a FIRST timestep -/
+theorem knapsack_reset_obs_faithful (budget : Rat) (w v : List Rat) :
+    (reset budget w v).2.obs = observeL2 (reset budget w v).1 ∧ (reset budget w v).2.stepType = .first :=
+  Knapsack.reset_obs_documented budget w v
 end Props.C12
 
 namespace Props.C11
@@ -246,4 +330,17 @@ theorem knapsack_progress (rnd : Rat → Rat) (dense : Bool) (s : State) (a : Na
     (h : (step rnd dense s a).2.stepType ≠ .last) :
     Jx.countTrue (step rnd dense s a).1.packed = Jx.countTrue s.packed + 1 :=
   Knapsack.progress rnd dense s a hl ha h
+
+/-- whole episodes (audit: `knapsack_progress` is a single step): from EVERY reset state (any budget, any valid draw of
+`n ≥ 1` items), EVERY list of at least `n` actions of the action spec `0 ≤ a < n` — legal or not — contains a LAST
+timestep, and the first one has (1-based) index ≤ `n`: no episode outlasts the structural horizon `num_items`.
+`Ep.rollout` iterates the L1 `step`, `Ep.firstLastTS` is what harness/props/c11.py measures (Core/Episode.lean). -/
+theorem knapsack_ends_within_horizon (n : Nat) (hn : 0 < n) (rnd : Rat → Rat) (dense : Bool) (budget : Rat)
+    (w v : List Rat) (h : validDraw n w v) (as : List Int) (hok : ∀ a ∈ as, inSpec n a) (hlen : n ≤ as.length) :
+    ∃ k, Ep.firstLastTS ((Ep.rollout (step rnd dense) (reset budget w v).1 as).map (·.2)) = some k ∧ 0 < k ∧ k ≤ n :=
+  Knapsack.ends_within_horizon n hn rnd dense budget w v h as hok hlen
+
+/-- the horizon is attained: three items that all fit are packed in three steps, LAST only at the third -/
+example : Ep.firstLastTS ((Ep.rollout (step id true) (reset 2 [1/2, 1/4, 1/2] [1, 1/2, 1/3]).1 [0, 1, 2]).map (·.2)) =
+    some 3 := by decide +kernel
 end Props.C11
